@@ -2,6 +2,8 @@
 //! mmap of one file by several ShmReader instances and one ShmWriter). Observational oracle only:
 //! every snapshot is one published record (C02), a reader never goes back (C03), and once the writer has stopped
 //! every reader's next snapshot is the last publication (C03).
+//! Then a sleeping reader: it sleeps through k publications (k up to 70000, around the quarter, half and full
+//! generation range) and must catch up (C03).
 //!   stress --secs 2 --readers 3
 use clock_bound_shm::{ClockErrorBound, ClockStatus, ShmReader, ShmWrite, ShmWriter};
 use std::sync::atomic::{AtomicBool, AtomicU64, Ordering};
@@ -94,7 +96,31 @@ fn main() {
         snaps += n;
         bad.extend(b);
     }
+    // sleeping reader: one snapshot, then k publications without a call, then a call with the writer idle. It must
+    // return the last publication unless k is a positive multiple of 32767 (the documented coincidence).
+    let c = std::ffi::CString::new(path.to_string_lossy().as_bytes()).unwrap();
+    let mut rd = ShmReader::new(&c).expect("reader");
+    let mut sweeps = 0u64;
+    for &gap in [1u64, 2, 3, 100, 8191, 8192, 16383, 16384, 16385, 20000, 30000, 32765, 32766, 32768, 32769, 40000, 49151, 50000, 65533, 65535, 65536, 70000].iter() {
+        let _ = rd.snapshot();
+        for _ in 0..gap {
+            k += 1;
+            w.write(&rec(k));
+        }
+        sweeps += 1;
+        match rd.snapshot() {
+            Ok(c) => {
+                let wds = words_of(c);
+                if wds != rec_words(wds[0]) {
+                    bad.push(format!("C02 torn: sleeping reader got {wds:?}"));
+                } else if wds[0] != k && gap % 32767 != 0 {
+                    bad.push(format!("C03 stale when idle: a reader that slept through {gap} publications got {}, last publication {k}", wds[0]));
+                }
+            }
+            Err(e) => bad.push(format!("C18 error from snapshot with an idle writer: {e:?}")),
+        }
+    }
     drop(w);
     let _ = std::fs::remove_dir_all(&dir);
-    println!("{}", serde_json::json!({"publications": k, "snapshots": snaps, "readers": nreaders, "secs": secs, "violations": bad}));
+    println!("{}", serde_json::json!({"publications": k, "snapshots": snaps, "readers": nreaders, "secs": secs, "sleep_sweeps": sweeps, "violations": bad}));
 }
